@@ -394,6 +394,11 @@ def cotangent_factory(quick, seed):
         "dict(b, a)": (lambda x: ab.dict(b=3.0 * x, a=np.sin(x)), lambda x, c: c["b"] * 3.0 + c["a"] * onp.cos(x)),
         "dict literal": (lambda x: ab.dict({"z": x * x, "m": 2.0 * x, "a": x}), lambda x, c: c["z"] * 2 * x + c["m"] * 2.0 + c["a"]),
         "tuple(dict, x)": (lambda x: ab.tuple((ab.dict(q=x * 2.0, p=x ** 3), x)), lambda x, c: c[0]["q"] * 2.0 + c[0]["p"] * 3 * x ** 2 + c[1]),
+        # the dict is both returned (caller's cotangent dict) and indexed (sparse item contributions): two dict cotangents are added
+        "tuple(dict, a*b)": (lambda x: (lambda d: ab.tuple((d, d["a"] * d["b"])))(ab.dict({"a": np.sin(x), "b": x ** 2})),
+                             lambda x, c: c[0]["a"] * onp.cos(x) + c[0]["b"] * 2 * x + c[1] * (onp.cos(x) * x ** 2 + onp.sin(x) * 2 * x)),
+        "dict(d, item)": (lambda x: (lambda d: ab.dict(d=d, item=d["v"]))(ab.dict({"u": x * 2.0, "v": np.cos(x)})),
+                          lambda x, c: c["d"]["u"] * 2.0 - (c["d"]["v"] + c["item"]) * onp.sin(x)),
         "list": (lambda x: ab.list([x, x * x, np.sin(x)]), lambda x, c: c[0] + c[1] * 2 * x + c[2] * onp.cos(x)),
         "dict of tuples": (lambda x: ab.dict(u=ab.tuple((x, 2 * x)), v=x ** 2), lambda x, c: c["u"][0] + 2 * c["u"][1] + c["v"] * 2 * x),
     }
@@ -404,7 +409,13 @@ def cotangent_factory(quick, seed):
             outs = []
             for perm in itertools.permutations(keys):
                 outs.append({k: c[k] for k in perm})
-            return outs[:6]
+            def deep(v):
+                if isinstance(v, dict):
+                    return {k: deep(v[k]) for k in reversed(list(v))}
+                if isinstance(v, (tuple, list)):
+                    return type(v)(deep(e) for e in v)
+                return v
+            return outs[:6] + [deep(c)]
         return [c]
 
     def h(ch):
